@@ -55,8 +55,9 @@ def main():
     src = a[a.index("--src") + 1] if "--src" in a else "/tmp/seeded-out"
     tier = a[a.index("--tier") + 1] if "--tier" in a else "quick"
     checks = a[a.index("--checks") + 1].split(",") if "--checks" in a else [pid]
+    tag = a[a.index("--tag") + 1] if "--tag" in a else ""   # e.g. "R2" for the second seeding round
     d = os.path.join(src, pid, var)
-    meta = {"property": pid, "variant": var, "repo_head": sh(["git", "-C", "/repo", "rev-parse", "--short", "HEAD"]).stdout.strip()}
+    meta = {"property": pid, "variant": (a[a.index("--tag") + 1] if "--tag" in a else "") + var, "repo_head": sh(["git", "-C", "/repo", "rev-parse", "--short", "HEAD"]).stdout.strip()}
     wt = tempfile.mkdtemp(prefix=f"wt-seed-{pid}{var}-")
     os.rmdir(wt)
     r = sh(["git", "-C", "/repo", "worktree", "add", "--detach", wt, "HEAD", "-q"])
@@ -108,7 +109,7 @@ def main():
     meta["needs_to_manifest"] = notes[:1500]
     print(json.dumps({k: v for k, v in meta.items() if k != "needs_to_manifest"}, indent=1))
     if ok:
-        dst = os.path.join(ROOT, "seeded", f"{pid}-{var}")
+        dst = os.path.join(ROOT, "seeded", f"{pid}-{tag}{var}")
         os.makedirs(dst, exist_ok=True)
         for f in ("patch.diff", "demo.py", "notes.md"):
             if os.path.exists(os.path.join(d, f)):
